@@ -22,6 +22,8 @@ type c10 struct{}
 
 func init() { engine.Register(c10{}) }
 
+func (c10) PostGenerate(r *engine.Rand, sc *engine.Scenario) { chooseEnv(r, sc) }
+
 func (c10) ID() string { return "C10" }
 
 func (c10) Budget(tier string) int {
@@ -155,7 +157,7 @@ func (c10) Execute(sc *engine.Scenario) *engine.Result {
 		return res
 	}
 	m.Write(0xff40, 0)
-	m.Park()
+	park(sc, m, res)
 	if sc.Class == "step" {
 		return c10Step(sc, m, res)
 	}
